@@ -190,8 +190,8 @@ const (
 // blsOracle decides condition 7.
 type blsOracle struct {
 	keyOf       map[[48]byte]*big.Int // every public key the monitor ever generated -> secret scalar
-	forkVersion [4]byte
-	genesisRoot h32
+	forkVersionAt func(slot uint64) [4]byte // fork version of the signing domain for a signature slot
+	genesisRoot   h32
 }
 
 var frOrder, _ = new(big.Int).SetString("73eda753299d7d483339d80809a1d80553bda402fffe5bfeffffffff00000001", 16)
@@ -326,7 +326,7 @@ func refVerify(o *blsOracle, st *refStore, u *refUpdate) refVerdict {
 		if sp != P {
 			com = st.Next
 		}
-		msg := refSigningRoot(u.Att.root(), domainSyncCommittee, o.forkVersion, o.genesisRoot)
+		msg := refSigningRoot(u.Att.root(), domainSyncCommittee, o.forkVersionAt(u.SigSlot), o.genesisRoot)
 		v.sigCom, v.sigMsg = com, msg
 		if com == nil {
 			// the store holds no committee for that period: nothing can be a valid signature
